@@ -30,6 +30,15 @@ def scenario(rng, again=None):
                 dict(at=round(t_drop + 4.0, 3), log='L2', seg=False, react='ok')]
         return dict(msgs=msgs, hook='none', stalls=0, drops=0, drop_at=[t_drop], refuse=[1], seed=rng.randrange(10 ** 9),
                     put_hook=False, order=rng.choice((1, 7)))
+    if rng.random() < 0.1:
+        # the application queues a message right after the link went down, while the ESME is still winding the session down
+        # (the Sender is waiting on the broker then): it must be sent on the next connection or handed to send_error
+        t_drop = round(rng.uniform(1.0, 4.0), 3) + 0.0002
+        msgs = [dict(at=round(rng.uniform(0.2, t_drop - 0.5), 3), log='L1', seg=False, react='ok'),
+                dict(at=round(t_drop + rng.choice((0.0005, 0.01, 0.05, 0.2, 0.4, 0.49)), 4), log='L2', seg=rng.random() < 0.3, react='ok'),
+                dict(at=round(t_drop + rng.uniform(2.0, 4.0), 3), log='L3', seg=False, react='ok')]
+        return dict(msgs=msgs, hook='none', stalls=0, drops=0, drop_at=[t_drop], seed=rng.randrange(10 ** 9), put_hook=False,
+                    order=rng.choice((1, 7)))
     if rng.random() < 0.12:
         # segmented messages on both sides of a reconnect: what the first one left in the correlator (accepted, waiting for
         # receipts; or unanswered) is still there when the next one is segmented on the new connection
@@ -101,6 +110,21 @@ def run(sc):
             s.ev('dequeue', getattr(m, 'log_id', ''))
             return m
         s.esme.broker.dequeue = dequeue
+        orig_sender = s.esme._dequeue_messages
+
+        async def sender():
+            # how does the Sender task end: cancelled by the session's clean-up, or of its own accord?
+            try:
+                r = await orig_sender()
+            except asyncio.CancelledError:
+                s.ev('sender-end', 'cancelled')
+                raise
+            except BaseException as e:      # noqa
+                s.ev('sender-end', 'raised ' + type(e).__name__)
+                raise
+            s.ev('sender-end', 'returned')
+            return r
+        s.esme._dequeue_messages = sender
         react_of_log = {m['log']: m['react'] for m in sc['msgs']}
         rcpt_of_log = {m['log']: m.get('rcpt', 'none') for m in sc['msgs']}
         seq_react = {}
@@ -289,7 +313,12 @@ def predicate(sc, ev):
                 t_drop = [e[0] for e in ev if e[1] in ('close',) and t_deq and e[0] >= t_deq[0]]
                 n_expected = 1 if not m['seg'] else None
                 unfinished = (not t_done) or (m['seg'] and len(t_done) < len(seqs)) or (m['seg'] and len(seqs) < 2)
-                if t_deq and t_drop and unfinished:
+                # ... the known finding is about a task that is CANCELLED with the message in its hands; a Sender that
+                # takes a message from the broker and then ends of its own accord without sending or reporting it is not it
+                ends = [e for e in ev if e[1] == 'sender-end' and t_deq and e[0] >= t_deq[0]]
+                if ends and ends[0][2] != 'cancelled':
+                    text += '; the Sender task that took it from the broker ended (%s) without sending or reporting it' % ends[0][2]
+                elif t_deq and t_drop and unfinished:
                     kind = 'sender-cancelled-mid-message'
             return text, kind
     return None, None
